@@ -324,7 +324,7 @@ func barePatterns(s, v string) []string {
 		if parts[0] == "forall" || parts[0] == "exists" {
 			return // nested binder: do not look inside
 		}
-		if parts[0] == "select" && len(parts) == 3 && parts[2] == v && !strings.Contains(parts[1], v) {
+		if parts[0] == "select" && len(parts) == 3 && parts[2] == v && !strings.Contains(parts[1], v) && patternOK(parts[1]) {
 			if !seen[e] {
 				seen[e] = true
 				out = append(out, e)
@@ -337,4 +337,14 @@ func barePatterns(s, v string) []string {
 	}
 	walk(s)
 	return out
+}
+
+// patternOK: triggers may not contain logical connectives or term-level ite.
+func patternOK(s string) bool {
+	for _, bad := range []string{"(ite ", "(and ", "(or ", "(not ", "(=> ", "(= ", "(<= ", "(< ", "(forall ", "(exists "} {
+		if strings.Contains(s, bad) {
+			return false
+		}
+	}
+	return true
 }
